@@ -13,12 +13,15 @@
 #include "parser/Tokenizer.h"
 #include "SquidConfig.h"
 
+#include <algorithm>
+
 Http1::Parser::size_type
 Http::One::RequestParser::firstLineSize() const
 {
     // RFC 7230 section 2.6
     /* method SP request-target SP "HTTP/" DIGIT "." DIGIT CRLF */
-    return method_.image().length() + uri_.length() + 12;
+    // a tolerated request-line may be longer than that (e.g., extra delimiters)
+    return std::max(firstLineBytes_, method_.image().length() + uri_.length() + 12);
 }
 
 /**
@@ -360,6 +363,7 @@ Http::One::RequestParser::doParse(const SBuf &aBuf)
         // first-line (or a look-alike) found successfully.
         if (retcode > 0) {
             parsingStage_ = HTTP_PARSE_MIME;
+            firstLineBytes_ = aBuf.length() - buf_.length();
         }
 
         debugs(74, 5, "request-line: retval " << retcode << ": line={" << aBuf.length() << ", data='" << aBuf << "'}");
